@@ -22,18 +22,23 @@ def refine_cases(ctx, viol, st):
     lines, meta = [], []
     for _ in range(40 if ctx.quick else 400):
         d = rng.choice([1, 2, 3]); m = 2
-        ds = AdaptivelyDiscretizedDesignSpace(d, m, delta=0.1, max_depth=5)
+        chain = rng.random() < 0.5            # keep refining a child of the last refined node: depths up to 12
+        ds = AdaptivelyDiscretizedDesignSpace(d, m, delta=0.1, max_depth=12 if chain else 5)
         ds.confidence_regions[0].lower = np.array([-1.5, 0.25]); ds.confidence_regions[0].upper = np.array([2.0, 0.75])
         refined = set()
-        for step in range(rng.randint(1, 4 if d == 3 else 6)):
+        last = None
+        for step in range(rng.randint(6, 12) if chain else rng.randint(1, 4 if d == 3 else 6)):
             leaves = [i for i in range(len(ds.points)) if i not in refined]
-            i = rng.choice(leaves); refined.add(i)
+            i = rng.choice(last) if (chain and last) else rng.choice(leaves)
+            refined.add(i)
             n0 = len(ds.points)
             parent_cell = [list(map(float, iv)) for iv in ds.cells[i]]
             plo, pup = ds.confidence_regions[i].lower.copy(), ds.confidence_regions[i].upper.copy()
             pdepth = ds.point_depths[i]
             ids = ds.refine_design(i)
+            last = list(ids)
             st["refinements"] += 1
+            st["max_refined_depth"] = max(st.get("max_refined_depth", 0), int(pdepth) + 1)
             lines.append(f"children {common.enc([[F(a), F(b)] for a, b in parent_cell])}")
             meta.append((d, i, n0, ids, [[list(map(float, iv)) for iv in ds.cells[k]] for k in ids], [ds.points[k].tolist() for k in ids],
                          [ds.point_depths[k] for k in ids], pdepth,
